@@ -127,7 +127,10 @@ def gen_case(rng) -> dict[str, Any]:
         else:
             x = gen_point()
             pts.append(x)
-        reqs.append([rng.pick(["f", "f", "g", "o"]), rng.pick(["val", "val", "jac"]), [rat(t) for t in x]])
+        # entry point: the function itself, or EvaluationProblem.evaluate_functions with the design
+        # vector given in normalized ("ef-norm") or physical ("ef-phys") coordinates
+        reqs.append([rng.pick(["f", "f", "g", "o"]), rng.pick(["val", "val", "jac"]), [rat(t) for t in x],
+                     rng.pick(["direct", "direct", "ef-norm", "ef-phys"])])
     case["reqs"] = reqs
     case["reuse_array"] = rng.chance(0.5)
     del has_int
@@ -139,7 +142,7 @@ def case_lines(case) -> list[str]:
     lines.append("cfg " + " ".join(str(b) for b in case["cfg"]))
     for name, fn in case["fns"].items():
         lines.append(f"fn {name} " + "|".join(f"{c}:{','.join(map(str, a))}:{','.join(map(str, q))}" for c, a, q in fn["rows"]))
-    for name, kind, x in case["reqs"]:
+    for name, kind, x, *_ in case["reqs"]:
         lines.append(f"{kind} {name} {','.join(x)}")
     return lines
 
@@ -247,8 +250,28 @@ def run_impl(case):
     # callers commonly reuse ONE array object and update it in place between requests
     reuse = bool(case.get("reuse_array", False))
     buf = None
-    for name, kind, x in case["reqs"]:
+    lbs, ubs, ints_ = space_arrays(case)
+    norm_cfg = bool(case["cfg"][0])
+    for name, kind, x, *rest in case["reqs"]:
+        via = rest[0] if rest else "direct"
         xa = np.array([float(Fraction(t)) for t in x])
+        if via != "direct":
+            # same request through evaluate_functions, coordinates converted exactly by the harness
+            xs = [Fraction(t) for t in x]
+            want_norm = via == "ef-norm"
+            conv = []
+            for xi, l, u, it in zip(xs, lbs, ubs, ints_):
+                normalisable = (not it) and l is not None and u is not None
+                if not normalisable or want_norm == norm_cfg:
+                    conv.append(xi)
+                elif norm_cfg:  # x is normalized, give the physical coordinate
+                    conv.append(l + xi * (u - l))
+                else:  # x is physical, give the normalized coordinate
+                    conv.append((xi - l) / (u - l) if u != l else Fraction(0))
+            if any(c.denominator & (c.denominator - 1) for c in conv):
+                via = "direct"  # not dyadic: keep the exact stream
+            else:
+                xa = np.array([float(c) for c in conv])
         if reuse:
             if buf is None or buf.shape != xa.shape:
                 buf = xa.copy()
@@ -258,7 +281,18 @@ def run_impl(case):
         x_before = xa.copy()
         n0 = len(log)
         try:
-            if kind == "val":
+            if via != "direct":
+                pb.check_bounds = False
+                outs, jacs = pb.evaluate_functions(
+                    design_vector=xa, design_vector_is_normalized=(via == "ef-norm"),
+                    output_functions=[fmap[name]] if kind == "val" else None,
+                    jacobian_functions=[fmap[name]] if kind == "jac" else None,
+                )
+                if kind == "val":
+                    o = ",".join(rat(float(t)) for t in np.atleast_1d(outs[name]))
+                else:
+                    o = fmt_mat(jacs[name])
+            elif kind == "val":
                 out = fmap[name].evaluate(xa)
                 o = ",".join(rat(float(t)) for t in np.atleast_1d(out))
             else:
@@ -312,7 +346,7 @@ def oracle(case, answers, obs, linear_fns) -> list[tuple[int, str, str]]:
             return ub[i] - lb[i]
         return Fraction(1)
 
-    for i, ((name, kind, x), ans, ob) in enumerate(zip(case["reqs"], answers, obs)):
+    for i, ((name, kind, x, *_), ans, ob) in enumerate(zip(case["reqs"], answers, obs)):
         if "exc" in ob:
             bad.append((i, "request-raises", f"request {kind} {name} at {x} raised: {ob['exc'][-300:]}"))
             break
@@ -394,7 +428,7 @@ def in_scope(case) -> bool:
     is requested in normalized mode (the only configuration where the property fixes their physical point)."""
     lb, ub, ints = space_arrays(case)
     norm, _, _, rnd = (bool(b) for b in case["cfg"])
-    for _, _, x in case["reqs"]:
+    for _, _, x, *_r in case["reqs"]:
         if len(x) != len(lb):
             return False
         for t, it in zip(x, ints):
@@ -423,6 +457,8 @@ def check_case(res: Result, case, model_answers, in_scope=True):
     res.count("cfg=" + "".join(str(b) for b in case["cfg"]))
     res.count(f"reqs<={(len(case['reqs']) // 8 + 1) * 8}")
     res.count("caller-reuses-array" if case.get("reuse_array") else "fresh-arrays")
+    for r in case["reqs"]:
+        res.count("via:" + (r[3] if len(r) > 3 else "direct"))
     for fn in case["fns"].values():
         res.count("fn:" + ("linear" if fn["linear"] else "sparse" if fn["sparse"] else "dense"))
     if len(case["reqs"]) >= 3:
